@@ -3291,7 +3291,7 @@ impl Bindgen for FunctionBindgen<'_, '_> {
             // TODO: checked
             Instruction::FlagsLower { flags, ty, .. } => match flags_repr(flags) {
                 Int::U8 | Int::U16 | Int::U32 => {
-                    results.push(operands.pop().unwrap());
+                    results.push(format!("(int32_t) {}", operands[0]));
                 }
                 Int::U64 => {
                     let name = self.r#gen.r#gen.type_name(&Type::Id(*ty));
